@@ -322,6 +322,21 @@ theorem memo_flags_do_not_change_answers (P Q : Prog) (w : Array RTok) (hb : Sam
     | _ => simp [Res.verdict] at hb'
   exact SRule.det (SRule.transport hb d1) d2
 
+theorem plainB_dropMemo (P : Prog) : plainB (dropMemo P) = plainB P := by
+  unfold plainB dropMemo
+  rw [Array.all_map]
+  congr 1; funext r
+  simp only [Function.comp]
+  cases r.deco <;> rfl
+
+/-- **removing_memo_flags_changes_no_answer.**  The special case the property names: a plain program and the same program
+    with every `(memo)` flag removed answer alike (from the initial state, with any two amounts of fuel). -/
+theorem removing_memo_flags_changes_no_answer (P : Prog) (w : Array RTok) (hP : plainB P = true) (id fuel1 fuel2 : Nat) (b v : Bool)
+    (x y : Option Nat) (hx : (execRule P w fuel1 id (St.init w.size b v)).1.verdict = some x)
+    (hy : (execRule (dropMemo P) w fuel2 id (St.init w.size b v)).1.verdict = some y) : x = y :=
+  memo_flags_do_not_change_answers P (dropMemo P) w (dropMemo_sameBodies P) hP (by rw [plainB_dropMemo]; exact hP) id fuel1 fuel2 _ _
+    (cacheOK_init _ _ _) (cSound_init w _ _ _) (cacheOK_init _ _ _) (cSound_init w _ _ _) rfl x y hx hy
+
 /-- non-vacuity: the example program without its `(memo)` flag is another plain program with the same bodies -/
 example : SameBodies plainProg (dropMemo plainProg) := dropMemo_sameBodies plainProg
 example : plainB (dropMemo plainProg) = true := by decide +kernel
